@@ -52,9 +52,12 @@ func (w *World) checkWorkingProofs() *Violation {
 	if w.WRoot == nil {
 		return nil
 	}
-	if w.WorkingVersion() != w.Cur+1 && hasUnstamped(w.WRoot) && Open("F1") {
-		w.Excl["F1"]++
-		return nil
+	if w.WorkingVersion() != w.Cur+1 && hasUnstamped(w.WRoot) {
+		if Open("F1") {
+			w.Excl["F1"]++
+			return nil
+		}
+		w.F1Exposed = true
 	}
 	root := rhash(w.WRoot, w.WorkingVersion(), false)
 	return w.checkProofsOn(w.Tree, nil, -1, w.WKV, w.WRoot, root, "working.")
